@@ -59,7 +59,8 @@ def apiDouble (x y : Nat) : Nat × Nat := toAffine (double fa (fromAffine x y))
 /-- `IsOnCurve` -/
 def isOnCurve (x y : Nat) : Bool :=
   let X := Fp.ofNat x; let Y := Fp.ofNat y
-  (X * X * X + fa * X + ⟨Spec.SM2.b⟩) == Y * Y
+  -- as repaired: coordinates outside [0, p) are refused, not reduced
+  decide (x < Spec.SM2.p) && decide (y < Spec.SM2.p) && (X * X * X + fa * X + ⟨Spec.SM2.b⟩) == Y * Y
 
 -- windowed NAF ---------------------------------------------------------------------------------------
 
